@@ -197,9 +197,16 @@ class Query(QueryBase[QueryResult]):
 
         # Random sampling: generate a random number in (0, 1) based on the
         # specification of SQLite's random() function.
+        #
+        # The term must mention a column of the schedule row: SQLite
+        # evaluates a WHERE term that refers to no table only once per row of
+        # the *outermost* loop of its query plan, so without the `0 * s.id`
+        # all instances of a flight were kept or dropped together whenever a
+        # filter made the planner drive the query from the flights table.
         if self.sample is not None:
             self._conditions.append(
-                '(random() + 9223372036854775808) / 18446744073709551615.0 < ?'
+                '(random() + 9223372036854775808) / 18446744073709551615.0 '
+                '< ? + 0 * s.id'
             )
             self._params.append(self.sample)
 
